@@ -330,6 +330,14 @@ def run(rng, tier, deep):
         xmx, ymx = float(rng.uniform(20, 400)), float(rng.uniform(20, 400))
         shape = str(rng.choice(["diamond", "circle", "point", "square"], p=[0.35, 0.3, 0.3, 0.05]))
         loc = None if rng.random() < 0.4 else (float(xmx * rng.uniform(-0.1, 1.1)), float(ymx * rng.uniform(-0.1, 1.1)))
+        if k % 10 == 3:
+            # a single column or row (the axis is `linspace(0, max, 1) = [0]`), off-centre source, a shape that sees it
+            if rng.random() < 0.5:
+                nx = 1
+            else:
+                ny = 1
+            shape = "point"
+            loc = (float(xmx * rng.uniform(0.55, 0.95)), float(ymx * rng.uniform(0.55, 0.95)))
         if k % 9 == 0 and nx > 2 and ny > 2:
             # a centre exactly on a node, and the radius reaching exactly to neighbouring nodes (ties of `R < R0`)
             xmx = 12.0 * (nx - 1)
